@@ -725,8 +725,8 @@ func c05liveness(c *Ctx, pf map[*ssa.Function]int) {
 				}
 			}
 			for _, a := range cs.Common().Args {
-				if mc, ok := a.(*ssa.MakeClosure); ok {
-					if closureFlushes(mc.Fn.(*ssa.Function), depth) {
+				if fn := engine.FuncValue(a); fn != nil && fn.Parent() != nil {
+					if closureFlushes(fn, depth) {
 						out[cs.Instr] = true
 					}
 				}
